@@ -33,6 +33,15 @@ def approx_inputs(rng, tier, wd):
         inputs.append((g, 1))
         inputs.append((gens.reweight(rng, g, [1, 2, 3]), 1))
         inputs.append((gens.permuted(rng, gens.reweight(rng, g, [1, 2, 3, 4, 5, 6, 7, 8, 9])), 1))
+    # adversarial structures for the ratio: one very heavy edge shared by the detours of many light chords
+    for pcount in (4, 5, 6):
+        for plen in (1, 2):
+            base = gens.petals(pcount, heavy=1000, chord=plen + 1, plen=plen)
+            inputs.append((base, 1))
+            for _ in range(3 if tier == 'quick' else 12):
+                inputs.append((gens.permuted(rng, base), 1))
+    for g in gens.random_graphs(rng, 60 if tier == 'quick' else 1500, 7, 11, 18, [[1, 1, 1, 2, 2, 3]]):
+        inputs.append((gens.heavy_spiked(rng, g, rng.randint(1, 2), rng.choice([200, 1000])), 1))
     nr = 250 if tier == 'quick' else 4000
     for g in gens.random_graphs(rng, nr, 4, 9, 16, [[1], [1, 2], [1, 2, 3], list(range(1, 10)), list(range(1, 60))]):
         inputs.append((g, 1))
